@@ -194,5 +194,25 @@ def run(prog, tier):
     ups = [prog.funcs[u] for u in sorted(prog.reachable_from(roots)) if u in prog.funcs and not prog.funcs[u].implicit and
            (prog.funcs[u].cls == 'ezc3d::c3d' or prog.funcs[u].rec.get('internal'))]
     n = indexsites.const_accessor_rule(prog, res, ups, rule_name='updater-positions')
+    # ... and an explicit refusal of their own after they have begun to rewrite the parameters / the header is a
+    # partial update by construction (distinct from K4, which is about look-ups that may throw)
+    for f in ups:
+        g = f.events()
+        evs = [e for e in E.events_of(f, 'this') if e[3] != 'io']
+        vs = {g.vertex_of.get(e[0]): e for e in evs if g.vertex_of.get(e[0]) is not None}
+        throws = list(f.all_nodes({'CXXThrowExpr'}))
+        if not throws:
+            res.ok('updater-refusal', f.name, f.loc(), 'no explicit throw in the updater', function=f.sig, expr='none', nontrivial=False)
+            continue
+        after = g.reach(list(vs.keys())) if vs else set()
+        for t in throws:
+            v = g.vertex_of.get(t['id'])
+            src = [x for x in vs if v is not None and v in after and v in g.reach([x])]
+            if src:
+                res.viol('updater-refusal', f.name + ': throw after mutation', f.loc(t['id']),
+                         'the updater throws %s after it has already rewritten part of the object (%s at %s): the caller\'s store and this partial update stay behind' %
+                         (t.get('throw_t'), FX.fmt(vs[src[0]]), f.loc(g.node_of(src[0]))), function=f.sig, expr='throw:%s' % t.get('throw_t'), sure=True)
+            else:
+                res.ok('updater-refusal', f.name + ': throw before any mutation', f.loc(t['id']), 'the refusal precedes every effect of the updater', function=f.sig, expr='throw@%d' % t['id'])
     res.minimum('guarded constant positions in the updaters', n, 3)
     return res
